@@ -14,7 +14,7 @@ func init() { Registry["C09"] = C09 }
 
 // C09: the views of one result agree.
 func C09(p *core.Program, r *core.Report) {
-	r.Explanation = "W1 (one source per element): for every Element.GenerateOutput the text view is domutil.InnerText of the very same SSA value / field that the HTML view serialises, or it is \"\" and the HTML view is built only from nodes that cannot contain text (img/picture clone after processPicture; shallow video clone with source/track children; tag placeholders); implementations whose text view is \"\" while the HTML view carries source text are reported (Embed: known finding); any other string returned when textOnly is set (a join of per-row texts, an attribute value) is reported. W2: ContentImages are read from the same cached processed clones (shared with C06-U4) and srcset reader/writer agree. W3: in Apply, Text and Node come from GenerateOutput(true/false) on the same Document, Node is the parsed HTML string of that call, WordCount and the Document come from one ExtractContent call, ContentImages from the extractor. W4: ExtractContent returns document and word count of the same pass (shared with C20-F1); Document.GenerateOutput and GetImageURLs iterate the element list forward and skip exactly the non-content elements. W5: C02-O10 shared (no trimmed rendering is concatenated). W6: the compiled word-matcher patterns of the Count methods find two words in ab<r>cd for every white-space character r of Unicode, so the counters split where strings.Fields splits."
+	r.Explanation = "W1 (one source per element): for every Element.GenerateOutput the text view is domutil.InnerText of the very same SSA value / field that the HTML view serialises, or it is \"\" and the HTML view is built only from nodes that cannot contain text (img/picture clone after processPicture; shallow video clone with source/track children; tag placeholders); implementations whose text view is \"\" while the HTML view carries source text are reported (Embed: known finding); any other string returned when textOnly is set (a join of per-row texts, an attribute value) is reported. W2: ContentImages are read from the same cached processed clones (shared with C06-U4) and srcset reader/writer agree. W3: in Apply, Text and Node come from GenerateOutput(true/false) on the same Document, Node is the parsed HTML string of that call, WordCount and the Document come from one ExtractContent call, ContentImages from the extractor. W4: ExtractContent returns document and word count of the same pass (shared with C20-F1); Document.GenerateOutput and GetImageURLs iterate the element list forward and skip exactly the non-content elements. W5: C02-O10 shared (no trimmed rendering is concatenated). W6: the compiled word-matcher patterns of the Count methods find two words in ab<r>cd for every white-space character r of Unicode, so the counters split where strings.Fields splits. W6 also: the matchers do not split at format characters (soft hyphen, zero-width space and joiners, BOM). W7: the attribute allow-list does not keep aria-hidden (its visibility rule also reads class, which is always dropped, so the text view of the processed clone would judge differently from the walk)."
 	r.NotCovered = "word-level equality of the two views (whitespace/punctuation normalisation of InnerText vs. the HTML parser), WordCount = number of words of Text (numeric relation between the word counter and InnerText)."
 
 	// ---- W1
